@@ -2,7 +2,8 @@
 from .common import *
 
 LEVEL_TEXT = ("Coq theorems (C17/Props.v): on every sorted segment the rows selected by the bisect ranges of each operator (= != < <= > >= in !in), in order and multiplicity, "
-              "equal the row-by-row scan; the scan is the Python-semantics predicate with Missing as the largest value. "
+              "equal the row-by-row scan; the scan is the Python-semantics predicate with Missing as the largest value; Table.index establishes the level-by-level invariant (= lexicographic order of the rows by index key) and only permutes rows; "
+              "several keyword conditions select the union; where of where selects the conjunction (views keep the invariant); groupby partitions by the index prefix. "
               "Whole-table behaviour (insert incl. ragged dicts, index, where/where-of-where, groupby, copy) is tied by operation-sequence correspondence with the extracted model "
               "and checked against an independent list-of-rows oracle.")
 TRUSTED = ["Coq 8.16.1 kernel (coqc)", "extraction ExtrOcamlBasic only + ocaml/driver.ml", "harness/c17.py (generator, oracle, canonicalisation Missing->None)",
